@@ -758,12 +758,9 @@ fn run_case(cfg: &Config, text: &str, rng: &mut Rng, verbose: bool) -> CaseOut {
                     }
                 }
                 if let Err(msg) = &out {
-                    if !msg.contains("raw > 0") {
-                        fails.push(format!("provider {} panics at offset {}: {}", pi, off, msg));
-                    }
-                    // only seen for a pattern that matches the empty string: has_word(0) trips debug_assert!(raw > 0) in
-                    // CreatedWords::single -- a totality defect (C03), the model reproduces it as RPanic
-                    tags.push("provider_call_panics(regex_empty_match,C03)".into());
+                    // (before fix d4b32a6 a pattern matching the empty string tripped debug_assert!(raw > 0) here)
+                    fails.push(format!("provider {} panics at offset {}: {}", pi, off, msg));
+                    tags.push("provider_call_panics".into());
                 }
                 if verbose {
                     println!("provider {} offset {} other={:#x} pre={:?} -> {:?}", pi, off, other_bits, pre_nodes, out);
@@ -851,10 +848,8 @@ fn run_case(cfg: &Config, text: &str, rng: &mut Rng, verbose: bool) -> CaseOut {
         }
         Ok(Err(e)) => tags.push(format!("tokenize_err:{}", e.split('(').next().unwrap_or(""))),
         Err(msg) => {
-            if !msg.contains("raw > 0") {
-                fails.push(format!("tokenization panics: {}", msg));
-            }
-            tags.push("tokenize_panics(regex_empty_match,C03)".into())
+            fails.push(format!("tokenization panics: {}", msg));
+            tags.push("tokenize_panics".into())
         }
     }
     if verbose {
